@@ -1,5 +1,5 @@
 #!/bin/bash
-# usage: confirm_seed.sh <seed dir containing patch.diff, demo files, demo_cmd.txt> <name>
+# usage: confirm_seed.sh <seed dir containing patch.diff, demo (*.rs and/or demo.diff), demo_cmd.txt> <name>
 # Confirms a seeded change in a scratch worktree of /repo HEAD:
 #   suite passes with the change, demo fails with it, demo passes without it.
 # Writes <seed dir>/confirm.log and prints a one-line verdict. Removes the worktree afterwards.
@@ -11,33 +11,30 @@ git -C /repo worktree remove --force "$WT" >/dev/null 2>&1
 git -C /repo worktree add -q --detach "$WT" HEAD || { echo "$NAME: cannot create worktree"; exit 2; }
 cd "$WT" || exit 2
 export CARGO_NET_OFFLINE=true
-if ! git apply --check "$SD/patch.diff" 2>>"$LOG"; then
-  if ! git apply --3way "$SD/patch.diff" >>"$LOG" 2>&1; then
-    echo "$NAME: PATCH-DOES-NOT-APPLY"; cd /; git -C /repo worktree remove --force "$WT"; exit 3
-  fi
-else
-  git apply "$SD/patch.diff"
-fi
+apply_patch() {
+  if git apply --check "$1" 2>>"$LOG"; then git apply "$1"; else git apply --3way "$1" >>"$LOG" 2>&1 || return 1; fi
+}
+apply_patch "$SD/patch.diff" || { echo "$NAME: PATCH-DOES-NOT-APPLY"; cd /; git -C /repo worktree remove --force "$WT"; exit 3; }
 echo "== suite with change" >>"$LOG"
 timeout 1500 cargo test --workspace --no-fail-fast --offline -j 6 >>"$LOG" 2>&1
 SUITE=$?
-# demo files: every .rs in the seed dir goes to tests/
-for f in "$SD"/*.rs; do [ -f "$f" ] && cp "$f" tests/; done
-DEMOS=$(for f in "$SD"/*.rs; do [ -f "$f" ] && basename "$f" .rs; done)
-FEAT=""
-grep -q -- "--features" "$SD/demo_cmd.txt" 2>/dev/null && FEAT=$(grep -o -- "--features[ =][a-z,]*" "$SD/demo_cmd.txt" | head -1)
-run_demos() {
-  rc=0
-  for d in $DEMOS; do
-    timeout 1500 cargo test --offline -j 6 $FEAT --test "$d" >>"$LOG" 2>&1 || rc=1
-  done
-  return $rc
+git diff > /tmp/$NAME.applied.diff
+# demo: integration test files and/or a demo patch
+install_demo() {
+  for f in "$SD"/*.rs; do [ -f "$f" ] && cp "$f" tests/; done
+  if [ -f "$SD/demo.diff" ]; then git apply "$SD/demo.diff" >>"$LOG" 2>&1 || echo "DEMO-DIFF-DOES-NOT-APPLY" >>"$LOG"; fi
 }
-echo "== demo with change" >>"$LOG"
-run_demos; WITH=$?
-git checkout -q -- .
+CMD=$(grep -m1 -E "^\s*cargo " "$SD/demo_cmd.txt" | sed 's/^\s*//')
+[ -z "$CMD" ] && CMD=$(grep -m1 -oE "cargo test[^\`]*" "$SD/demo_cmd.txt")
+run_demo() { timeout 1500 bash -c "$CMD" >>"$LOG" 2>&1; }
+install_demo
+echo "== demo with change: $CMD" >>"$LOG"
+run_demo; WITH=$?
+git checkout -q -- . ; git clean -fdq -e target
+install_demo
 echo "== demo without change" >>"$LOG"
-run_demos; WITHOUT=$?
+run_demo; WITHOUT=$?
 cd /
 git -C /repo worktree remove --force "$WT"
-echo "$NAME: suite_with_change_rc=$SUITE demo_with_change_rc=$WITH demo_without_change_rc=$WITHOUT" | tee -a "$LOG"
+rm -f /tmp/$NAME.applied.diff
+echo "$NAME: suite_with_change_rc=$SUITE demo_with_change_rc=$WITH demo_without_change_rc=$WITHOUT cmd=[$CMD]" | tee -a "$LOG"
